@@ -86,11 +86,33 @@ def build(d, params=('P0',), ref_names=None, taxa=None, qlabels=None):
 		alt = os.path.join(d, 'qalt', (QFILES[lab][:-3] if QFILES[lab].endswith('.gz') else QFILES[lab] + '.gz'))
 		fixtures.write_fasta(alt, contigs_of(segs), gz=alt.endswith('.gz'))
 		fx.qgz[lab] = alt
+	# the same genomes as multi-member gzip files (what bgzip / `cat a.gz b.gz` produce; valid gzip), members cut mid-record
+	fx.qmulti = {}
+	import gzip, io
+	for lab, segs in QUERIES.items():
+		name = QFILES[lab] if QFILES[lab].endswith('.gz') else QFILES[lab] + '.gz'
+		p = os.path.join(d, 'qmulti', name)
+		os.makedirs(os.path.dirname(p), exist_ok=True)
+		data = fixtures.fasta_text(contigs_of(segs)).encode('ascii')
+		cuts = [0, len(data) // 3, 2 * len(data) // 3, len(data)]
+		buf = io.BytesIO()
+		for a, b in zip(cuts, cuts[1:]):
+			with gzip.GzipFile(fileobj=buf, mode='wb', mtime=0) as f:
+				f.write(data[a:b])
+		with open(p, 'wb') as f:
+			f.write(buf.getvalue())
+		fx.qmulti[lab] = p
 	# reference genomes as files
 	for i, segs in enumerate(REFS):
 		p = os.path.join(d, 'r', f'{ref_names[i]}.fasta')
 		fixtures.write_fasta(p, contigs_of(segs))
 		fx.r[i] = p
+	# reference genomes stored under the QUERY file names in another directory: same labels, different genomes
+	fx.rsame = {}
+	for lab, i in zip(QUERIES, [2, 5, 0, 3]):
+		p = os.path.join(d, 'rsame', QFILES[lab])
+		fixtures.write_fasta(p, contigs_of(REFS[i]), gz=p.endswith('.gz'))
+		fx.rsame[lab] = (p, i)
 	labels = list(QUERIES) if qlabels is None else qlabels
 	for pname in params:
 		ks = kspec_of(pname)
